@@ -84,22 +84,40 @@ def module_fingerprints(repo, rel):
     return cache[rel]
 
 
-def same_as_reference(chk, rule, rel, key, what):
-    """Rule instance: the function `key` of module `rel` is proven equal (E8) to its reference version.  Used for small
+def unit_fp(mod, key):
+    """Fingerprint of a unit of one module's fingerprint table: a function (`f`, `C.m`, `C.p:setter`), a name bound in a
+    module or class body (`<module>#X`, `C.<class>#X`) or a literal module constant (`const:X`)."""
+    if key.startswith("const:"):
+        return mod.get("consts", {}).get(key[6:])
+    if "#" in key:
+        return mod.get("scopes", {}).get(key)
+    return mod.get("funcs", {}).get(key)
+
+
+def reference_units(rel):
+    m = reference()["modules"].get(rel, {})
+    return sorted(m.get("funcs", {})) + sorted(m.get("scopes", {})) + sorted("const:" + k for k in m.get("consts", {}))
+
+
+def same_as_reference(chk, rule, rel, key, what, missing_ok=False):
+    """Rule instance: the unit `key` of module `rel` is proven equal (E8) to its reference version.  Used for small
     accessors and gates that have no independent oracle: any behavioural change of the function fires; renames, extracted
     temporaries, early returns, helper extraction … do not (see vgraph.py)."""
     from .model import AnalysisError
-    ref = reference()["modules"].get(rel, {}).get("funcs", {}).get(key)
+    ref = unit_fp(reference()["modules"].get(rel, {}), key)
     if ref is None:
         raise AnalysisError(f"no reference fingerprint for {rel}::{key}")
-    cur = module_fingerprints(chk.repo, rel)["funcs"].get(key)
+    cur = unit_fp(module_fingerprints(chk.repo, rel), key) if rel in chk.repo.modules else None
     if cur is None:
+        if missing_ok:
+            return True
         raise AnalysisError(f"anchor function {rel}::{key} not found")
     ok = cur == ref
-    node = None
-    q = key.split(":")[0]
-    f = chk.repo.try_func(rel, q, setter=key.endswith(":setter"))
-    where = f"{rel}:{f.node.lineno}" if f is not None else rel
+    where = rel
+    if "#" not in key and not key.startswith("const:"):
+        q = key.split(":")[0]
+        f = chk.repo.try_func(rel, q, setter=key.endswith(":setter"))
+        where = f"{rel}:{f.node.lineno}" if f is not None else rel
     chk.inst(rule, f"{rel}::{key}::same-as-reference", ok, f"proven equal to the reference version ({what})" if ok else
              f"no longer proven equal to the reference version — {what}", where)
     return ok
